@@ -168,4 +168,9 @@
 #endif
 
 
+#ifdef URCU_VERIF
+#define _URCU_ARCH_VERIF_POINT
+#include <urcu/verif.h>
+#endif
+
 #endif /* _URCU_ARCH_H */
